@@ -977,6 +977,9 @@ func (as *AbacoSource) readerMainLoop() {
 	ticker := time.NewTicker(as.readPeriod)
 	defer ticker.Stop()
 	as.lastread = time.Now()
+	// Packets are filled in (and counted) as soon as a gap is seen, but a read can end without
+	// producing a block. Carry those counts to the next block instead of discarding them.
+	carriedDroppedFrames, carriedDroppedBytes := 0, 0
 
 awaitmoredata:
 	for {
@@ -995,6 +998,8 @@ awaitmoredata:
 			var lastSampleTime time.Time
 			var droppedFrames int
 			var droppedBytes int
+			droppedFrames, droppedBytes = carriedDroppedFrames, carriedDroppedBytes
+			carriedDroppedFrames, carriedDroppedBytes = 0, 0
 			for _, pp := range as.producers {
 				allPackets, err := pp.ReadAllPackets()
 				lastSampleTime = time.Now()
@@ -1025,6 +1030,7 @@ awaitmoredata:
 				}
 				sn0, err := group.firstSeqNum()
 				if err != nil { // That is, no data available from this group
+					carriedDroppedFrames, carriedDroppedBytes = droppedFrames, droppedBytes
 					continue awaitmoredata
 				}
 				if sn0 > firstSn {
@@ -1044,6 +1050,7 @@ awaitmoredata:
 				}
 			}
 			if framesToDeMUX <= 0 {
+				carriedDroppedFrames, carriedDroppedBytes = droppedFrames, droppedBytes
 				continue awaitmoredata
 			}
 			// t1, t2 = t2, time.Now()
